@@ -123,9 +123,9 @@ def run_proofs(report, prop, modules, timeout_ms=None):
                 report.failures.append(f"zero obligations generated for {fn}")
             for o in r["obligations"]:
                 solver_ms[o["backend"]] = solver_ms.get(o["backend"], 0) + o["ms"]
-                if o["kind"] == "pre-sat":
+                if o["kind"] in ("pre-sat", "path-sat"):
                     if o["result"] == "vacuous":
-                        report.failures.append(f"vacuous precondition in {fn}")
+                        report.failures.append(f"vacuous {'precondition' if o['kind'] == 'pre-sat' else 'path (assumed callee contracts contradict each other)'} in {fn}")
                     continue
                 mine_ = (not o["tags"]) or prop in o["tags"]
                 if not mine_ and o["result"] != "proved":
